@@ -42,6 +42,12 @@ def engines():
     from libpass._utils import binary as LB
 
     out["libpass_h64"] = (LB.h64_engine, R.H64, False, False)
+    # the libpass port of the engine class is used little-endian only by the library itself, but both bit orders
+    # are part of the class
+    _s = lambda a: a if isinstance(a, str) else a.decode("latin-1")  # noqa: E731
+    out["libpass_h64big"] = (LB.Base64Engine(_s(R.H64), big=True), R.H64, True, False)
+    out["libpass_bcrypt64"] = (LB.Base64Engine(_s(R.BCRYPT), big=True), R.BCRYPT, True, False)
+    out["libpass_std_little"] = (LB.Base64Engine(_s(R.STD), big=False), R.STD, False, False)
     return out
 
 
